@@ -14,8 +14,11 @@ def sh(cmd, timeout=None, env=None, cwd=ROOT):
     e = dict(os.environ)
     if env:
         e.update(env)
-    p = subprocess.run(cmd, shell=isinstance(cmd, str), cwd=cwd, env=e, stdout=subprocess.PIPE, stderr=subprocess.STDOUT,
-                       timeout=timeout, text=True, errors="replace")
+    try:
+        p = subprocess.run(cmd, shell=isinstance(cmd, str), cwd=cwd, env=e, stdout=subprocess.PIPE, stderr=subprocess.STDOUT,
+                           timeout=timeout, text=True, errors="replace", start_new_session=True)
+    except subprocess.TimeoutExpired as ex:
+        return 124, "TIMEOUT after %s s: %s\n%s" % (timeout, cmd, (ex.stdout or "")[-2000:] if isinstance(ex.stdout, str) else "")
     return p.returncode, p.stdout
 
 
